@@ -103,6 +103,17 @@ def run_history(case):
                         pin[x][y] = gen[y]          # X fetched Y's bundle or already had it
                         if y_ok:
                             pin[y][x] = gen[x]
+            elif kind == "learn":
+                # the server tells X that Y's identity changed / X looks Y's keys up without sending anything
+                x, y = phones[NAMES.index(ev[1])], phones[NAMES.index(ev[2])]
+                X, Y = w.acc(x), w.acc(y)
+                from yowsup.structs.protocoltreenode import ProtocolTreeNode as _N
+                w.server.nid += 1
+                w.server.to_client(X.jid, _N("notification", {"type": "encrypt", "id": "idn%d" % w.server.nid, "from": Y.jid, "t": w.server.tick()},
+                                            [_N("identity")]))
+                w.settle()
+                if autotrust or pin[x][y] in (None, gen[y]):
+                    pin[x][y] = gen[y]
             elif kind == "reinstall":
                 x = phones[NAMES.index(ev[1])]
                 w.reinstall(x)
@@ -166,6 +177,10 @@ def alphabet(n):
         for y in names:
             if x != y:
                 evs.append(["send", x, y])
+    for x in names:
+        for y in names:
+            if x != y:
+                evs.append(["learn", x, y])
     for x in names:
         evs.append(["reinstall", x])
     for x in names:
